@@ -25,6 +25,11 @@ CLAIMS = {
    text="Decides that no field of the recycled interpreter state (every field of Runner, and of the Match it owns) can be read before the current call has written it, on any path from (*Runner).scan through all reachable callees (R-STALE; persistent-by-design fields are a frozen table with reasons, some of which are themselves checked), that putRunner restores the full program, that a handed-out Match is detached, that pooled buffers are re-sliced to the decoded length and that the replacement cache is per-Regexp and keyed by the whole replacement (R-RESTORE/DETACH/BUFLEN/CACHEKEY). A stale read is how history leaks into a result, so this is a necessary condition of C12; equality with a freshly compiled Regexp as such is NOT decided (slice contents beyond the position markers are argued dead, not analysed).",
    note="Trusted: go/ssa + VTA resolution of the three func-valued fields; element-level contents of the stacks and capture arrays are outside the analysis; error-return correlation is modelled only for `if err != nil` directly on a call result.",
    ref="DESIGN.md §4 C12"),
+ "C11": dict(
+   technique="static analysis: whole-program shared-derived taint on go/ssa over the VTA call graph (effect confinement), lockset dataflow, dominance of monotonic-update guards, ownership/typestate of pooled objects",
+   text="Decides data-race freedom of the shared state reachable at match time, by construction of the code: no store/map-update/append/copy/delete reachable from any exported method of Regexp, compat.Regexp, Match, Group or Capture targets memory derived from a shared Regexp, Code or global, except structures shown to be mutex- or atomic-protected (R-FX); every access to those structures holds the right lock in the right mode, including writes through loaded values such as list.MoveToFront (R-LOCK); the clock end time is only raised under its lock (R-CLOCKEND); pooled runners and buffers have one owner and never leak into a returned Match (R-OWN). Race freedom is necessary for C11; that each concurrent call returns what it would return alone is NOT decided beyond this plus C12.",
+   note="Trusted: context-insensitive taint (a helper called with both shared and fresh arguments is treated as shared); a whitelist of read-only external callees; configuration entry points (SetTimeoutCheckPeriod, assigning MatchTimeout, RegisterEngine, UnmarshalText) are outside 'using a compiled Regexp'.",
+   ref="DESIGN.md §4 C11"),
 }
 
 NOT_APPLICABLE = {
